@@ -72,7 +72,7 @@ PROPS = {
         "technique": "column-to-field dataflow rule, iterator-chain shape rules, kind propagation",
     },
     "C14": {
-        "rules": [r_fmt.run_c14, r_cost.run_c14, kind_scope("trainer::model"), r_misc.cache],
+        "rules": [r_fmt.run_c14, r_cost.run_c14, kind_scope("trainer::model"), r_misc.cache, r_misc.idxbase],
         "explanation": "FMT: each generated file's row template (delimiters, column count and "
                        "order, quoted surface first, feature last) matches what the compiler's "
                        "reader does with each column (parse_csv column->field mapping, "
@@ -388,7 +388,10 @@ _ADDED = {
             "remainder of its own row after the fourth field and an earlier (skipped) row leaves "
             "nothing behind. Re-deriving the feature by comma-splitting text is reported.",
             "path-sensitive abstract interpretation of the CSV parsing loop"),
-    "C14": ("CACHE: every Model method that mutates the model data resets the cached merged "
+    "C14": ("QUOTER: every byte quote_csv_cell writes comes from the csv-core writer's output "
+            "buffer and Writer::finish precedes Ok. IDXBASE: a 1-based feature id indexes rucrf's "
+            "unigram table as id-1 and the bigram table (slot 0 = BOS/EOS) as id. "
+            "CACHE: every Model method that mutates the model data resets the cached merged "
             "model (a stale cache makes the user rows index past the merged tables).",
             "who-may-write / must-kill rule on the cache field"),
     "C16": ("RESERVED0 / ROWRANGE: the BOS/EOS row of the raw connector is zeroed over its full "
